@@ -31,7 +31,7 @@ StepOf(j) == [op |-> j.op, ev |-> j.ev, evs |-> IF "evs" \in DOMAIN j THEN j.evs
 
 Unpack(s) == [config |-> s.config, hist |-> s.hist, status |-> s.status, ctx |-> s.ctx,
               queue |-> <<>>, out |-> <<>>, err |-> NoErr, rd |-> 0, output |-> s.output, gv |-> <<>>,
-              faults |-> {}, halt |-> FALSE]
+              faults |-> {}, halt |-> FALSE, slow |-> 0]
 
 ImplStep(pre, step, eng) ==
   LET e0 == IF eng = "pure" THEN "pure" ELSE eng
